@@ -153,14 +153,15 @@ int m_map_put(m_map_t *m, const char *key, void *value) {
 int m_map_remove(m_map_t *m, const char *key) { (void)m; (void)key; if (!g_ent.present) return -ENOENT; g_ent.present = false; mem_dtor(g_ent.val); g_ent.key = NULL; g_ent.val = NULL; return 0; }
 void mem_dtor(void *src) { m_mem_unref(src); }
 char *mem_strdup(const char *s) { char *n = memhook._malloc(2); if (n) { n[0] = s[0]; n[1] = 0; } return n; }
-int v_regcomp(regex_t *preg, const char *regex, int cflags) { (void)preg; (void)regex; (void)cflags; return 0; }
-void v_regfree(regex_t *preg) { (void)preg; }
+static size_t g_regcomp_calls, g_regfree_calls;      /* a compiled pattern owns libc memory until regfree() */
+int v_regcomp(regex_t *preg, const char *regex, int cflags) { (void)preg; (void)regex; (void)cflags; g_regcomp_calls++; return 0; }
+void v_regfree(regex_t *preg) { (void)preg; g_regfree_calls++; }
 #endif
 /* the compiled pattern is an opaque libc object: copying it (64 bytes with embedded pointers, from an object regcomp would have filled) made CBMC run out of memory;
  * in this unit memcpy is swapped for this stub (goto-instrument --replace-calls): the one copy the function makes is of exactly that object and is skipped */
 void *v_memcpy_regex(void *dst, const void *src, size_t n) { (void)src; V_CHECK("C04.only-the-compiled-pattern-is-copied", n == sizeof(regex_t)); return dst; }
 void h_subscribe_real(void) {
-    v_inputs_init(); v_base_init(); memhook._free = v_free_rec; g_nfreed = 0;
+    v_inputs_init(); v_base_init(); memhook._free = v_free_rec; g_nfreed = 0; g_regcomp_calls = 0; g_regfree_calls = 0;
     static m_mod_t modobj; static char topic[2] = "t"; static int up1, up2;
     m_src_flags fo = (m_src_flags)vin_flags_old, fn = (m_src_flags)vin_flags_new;
     g_mctx = &g_ctxobj; modobj.ctx = &g_ctxobj; modobj.state = M_MOD_RUNNING; modobj.flags = 0; modobj.tb.tokens = 5; modobj.subscriptions = NULL; g_ent.present = false;
@@ -172,6 +173,8 @@ void h_subscribe_real(void) {
     unsigned prio = fn & 7u;
     /* subscribing (again) to a topic with a well-formed flag word succeeds, whatever was subscribed before */
     if (prio == 0 || prio == 1 || prio == 2 || prio == 4) V_CHECK("C09.subscribing-a-topic-again-succeeds", r == 0);
+    /* every pattern the library compiled is either the one of the subscription that is stored, or was released: none is left behind */
+    if (r == 0) V_CHECK("C04.every-compiled-pattern-is-owned-by-the-stored-subscription-or-released", g_regcomp_calls - g_regfree_calls == (g_ent.present ? 1u : 0u));
     if (r == 0) {
         ev_src_t *cur = g_ent.val;
         V_CHECK("C09.one-subscription-per-topic-carrying-the-latest-user-pointer", g_ent.present && cur != NULL && cur->userptr == (void *)&up2 && cur->mod == &modobj && cur->type == M_SRC_TYPE_PS);
